@@ -80,9 +80,22 @@ def gen_case(rng, for_log=False):
             steps = steps[:-1]
         steps.append(['type', (body[:k] + b'q' + body[k:]).hex()])
         end = 'escape'
+    filt_out = rng.choice([None, None, 'upper', 'double', 'drop-x'])
+    if rng.random() < 0.25:
+        # a burst that the output filter removes completely (the filtered read is empty: not an end of file),
+        # followed by more output that must still arrive
+        filt_out = 'drop-x'
+        k = rng.randint(0, len(steps))
+        more = bytes(rng.choice(b'abcdefgh') for _ in range(5))
+        tail_steps = steps[k:]
+        steps = steps[:k] + [['out', (b'x' * rng.randint(1, 4)).hex()], ['out', more.hex()]] + tail_steps
+    if filt_in is None and rng.random() < 0.15 and esc != 'x':
+        filt_in = 'drop-x'
+        k = rng.randint(0, max(0, len(steps) - 1))
+        steps = steps[:k] + [['type', b'xx'.hex()], ['type', b'after-x'.hex()]] + steps[k:]
     case = {'enc': rng.choice([None, 'utf-8']), 'poll': rng.random() < 0.4, 'escape': esc,
             'filters': {'input': filt_in,
-                        'output': rng.choice([None, None, 'upper', 'double', 'drop-x'])},
+                        'output': filt_out},
             'pending': rng.choice(['', '', 'PEND\xe9ing']), 'steps': steps, 'end': end, 'logs': []}
     if for_log:
         case['interact'] = True
